@@ -15,8 +15,13 @@
 package ggql
 
 import (
+	"math"
 	"time"
 )
+
+// maxTimeSecs is the largest number of seconds since the epoch that can be
+// expressed as int64 nanoseconds.
+const maxTimeSecs = math.MaxInt64 / 1000000000
 
 type timeScalar struct {
 	Scalar
@@ -43,10 +48,20 @@ func (*timeScalar) CoerceIn(v interface{}) (interface{}, error) {
 	case nil:
 		// leave as nil
 	case float64:
-		secs := int64(tv)
-		v = time.Unix(0, secs*int64(time.Second)).In(time.UTC).Add(time.Duration((tv - float64(secs)) * float64(time.Second)))
+		if -maxTimeSecs <= tv && tv <= maxTimeSecs {
+			secs := int64(tv)
+			v = time.Unix(0, secs*int64(time.Second)).In(time.UTC).Add(time.Duration((tv - float64(secs)) * float64(time.Second)))
+		} else { // nanoseconds since the epoch would overflow
+			err = newCoerceErr(v, "Time")
+			v = nil
+		}
 	case int64:
-		v = time.Unix(0, tv*int64(time.Second)).In(time.UTC)
+		if -maxTimeSecs <= tv && tv <= maxTimeSecs {
+			v = time.Unix(0, tv*int64(time.Second)).In(time.UTC)
+		} else {
+			err = newCoerceErr(v, "Time")
+			v = nil
+		}
 	case string:
 		var t time.Time
 		if t, err = time.Parse(time.RFC3339Nano, tv); err == nil {
